@@ -21,3 +21,26 @@ Theorem C11_withdrawn_never_hopeful_at_start_partial : forall A cfg pr c,
   exists p, In p (pr_cands pr) /\ pc_cid p = cid c /\ pc_withdrawn p = false.
 Proof. exact c11_hopeful_at_start. Qed.
 Print Assumptions C11_withdrawn_never_hopeful_at_start_partial.
+
+(* "Candidate numbering is irrelevant", the part that is a statement about the profile alone ([renumber f pr]: every candidate id in
+   the candidate list and in every ranking mapped through an injective f): the number of ballots -- hence the quota, C04 -- is
+   unchanged, every candidate's first-preference total is carried over to its new number, and the profile stays well-formed, so
+   every whole-run theorem (C01, C02, C04-C09) applies to the renumbered count as well.  "Withdrawn means absent", at the start: a
+   withdrawn candidate is nobody's first preference.  (Proofs/C11First.v.)  That the whole records then correspond is decided by the
+   renumbering / deletion oracle: _partial. *)
+From Coq Require Import Lia.
+From Droop Require Import Proofs.ConserveCount Proofs.Majority Proofs.C11First.
+Theorem C11_renumbering_at_the_start_partial : forall f pr, injective f ->
+  (wf_profile pr -> wf_profile (renumber f pr)) /\ ballot_total (renumber f pr) = ballot_total pr /\
+  forall m, first_prefs (renumber f pr) (f m) = first_prefs pr m.
+Proof. exact (fun f pr Hf => conj (renumber_wf f pr Hf) (conj (renumber_ballot_total f pr) (fun m => renumber_first_prefs f pr m Hf))). Qed.
+Print Assumptions C11_renumbering_at_the_start_partial.
+
+Theorem C11_withdrawn_candidate_has_no_first_preferences_partial : forall pr w, wf_profile pr ->
+  (exists pc, In pc (pr_cands pr) /\ pc_cid pc = w /\ pc_withdrawn pc = true) -> first_prefs pr w = 0%Z.
+Proof. exact withdrawn_no_first_prefs. Qed.
+Print Assumptions C11_withdrawn_candidate_has_no_first_preferences_partial.
+
+(* an injective renumbering exists that is not the identity (the premise is satisfiable): the swap of 1 and 2 *)
+Example C11_swap_is_injective : injective (fun i => if (i =? 1)%Z then 2%Z else if (i =? 2)%Z then 1%Z else i).
+Proof. intros a b. destruct (a =? 1)%Z eqn:A1, (b =? 1)%Z eqn:B1, (a =? 2)%Z eqn:A2, (b =? 2)%Z eqn:B2; lia. Qed.
